@@ -268,6 +268,81 @@ def run_cases(cases, ctx):
     return traces
 
 
+def runtime_changes(shapes):
+    """the class (or the instance) is changed after the daemon has seen and cached its members: what is served is decided by
+    what the name denotes now.  For served method shapes: the member is shadowed by a plain instance attribute holding an
+    unexposed callable, or replaced in the registered class by an unexposed function; the trace record describes the member
+    as it is after the change."""
+    from Pyro5 import protocol, serializers
+    traces = []
+
+    def main():
+        sc = S.CUR
+        lab = L.Lab(servertype="multiplex")
+        sers = sorted(serializers.serializers)
+        n = 0
+        for mi, m in shapes:
+            for change in ("instance_shadow", "class_replace"):
+                for rk in ("call", "oneway", "batch", "batch_oneway"):
+                    n += 1
+                    sc.set_budget(30000)
+                    ser = sers[n % 4]
+                    log = []
+                    obj, name = build_target(m, mi, log)
+                    oid = "rt%d" % n
+                    lab.daemon.register(obj, oid)
+                    c = lab.raw()
+                    c.send(L.connect_msg(oid))           # the daemon looks at the class now (metadata for the handshake answer)
+                    lab.quiesce()
+                    c.drain()
+                    c.send(L.invoke_msg(oid, name, [1], ser=ser))     # ... and serves the member once
+                    lab.quiesce()
+                    c.drain()
+                    served_before = "member" in log
+                    del log[:]
+
+                    def intruder(*a, **k):
+                        log.append("intruder")
+                        return "ran:intruder"
+                    try:
+                        if change == "instance_shadow":
+                            obj.__dict__[name] = intruder
+                            m2 = dict(m, kind="instattr", mark="none", where="own", oneway=False)
+                        else:
+                            setattr(type(obj), name, intruder)
+                            m2 = dict(m, kind="imethod", mark="none", where="own", oneway=False)
+                    except Exception:
+                        lab.daemon.unregister(oid)
+                        continue
+                    before = snapshot(obj)
+                    del c.replies[:]
+                    if rk in ("call", "oneway"):
+                        data = L.invoke_msg(oid, name, [1], flags=protocol.FLAGS_ONEWAY if rk == "oneway" else 0, ser=ser)
+                    else:
+                        calls = [["bystander", [], {}], [name, [1], {}], ["bystander", [], {}]]
+                        if ser == "serpent":
+                            calls = [tuple(x) for x in calls]
+                        data = L.invoke_msg(oid, "<batch>", calls, flags=protocol.FLAGS_BATCH | (protocol.FLAGS_ONEWAY if rk == "batch_oneway" else 0), ser=ser)
+                    c.send(data)
+                    lab.quiesce()
+                    c.drain()
+                    reply = "none"
+                    if c.replies:
+                        reply = "error" if c.replies[-1]["flags"] & protocol.FLAGS_EXCEPTION else "result"
+                    elif c.server_closed():
+                        reply = "closed"
+                    traces.append({"m": m2, "rk": rk, "nv": "exact", "ran": any(x != "bystander" for x in log), "bystanders": log.count("bystander"),
+                                   "changed": snapshot(obj) != before, "reply": reply, "meta_method": False, "meta_attr": False, "meta_oneway": False,
+                                   "meta_extra": False, "ser": ser, "name": name, "req": repr(name), "log": list(log),
+                                   "runtime_change": change, "served_before": served_before})
+                    c.close()
+                    lab.quiesce()
+                    lab.daemon.unregister(oid)
+        lab.close()
+    memnet.run(main, max_steps=400000000)
+    return traces
+
+
 def concurrent_metadata(shapes, seed):
     """two clients ask for the metadata of a freshly registered class at the same time (thread server, thread switches at every
     line of the member scan): each must be told the complete member list; afterwards the member is requested as usual"""
@@ -368,6 +443,13 @@ def run(ctx):
               and sh["m"]["kind"] in ("imethod", "smethod", "cmethod", "prop_ro", "prop_rw", "prop_wo")]
     ctraces = concurrent_metadata(marked[::ctx.pick(4, 1)], ctx.seed)
     traces += ctraces
+    # the member changes after the daemon has cached the class's members
+    methods = [(mi, m) for mi, m in marked if m["kind"] in ("imethod", "smethod", "cmethod")]
+    rtraces = runtime_changes(methods[::ctx.pick(3, 1)])
+    if sum(1 for t in rtraces if t["served_before"]) < 20:
+        raise util.MachineryError("run-time change pass: the members were not served before the change")
+    traces += rtraces
+    ctx.extra["runtime_change_cases"] = len(rtraces)
     for c in cases:
         ctx.count(json.dumps([c["mi"], c["rk"], c["nv"]]))
     for i in (0, len(traces) // 2, len(traces) - 1):
